@@ -58,9 +58,43 @@ static void h_handler(bool done, dispatch_data_t d, int err)
 	H_calls++;
 	__verif_event(EV_CALLOUT, 0, (void *)h_handler, done, (unsigned long long)err);
 }
+#ifdef VERIF_NATIVE
+#define H_HANDLER (^(bool _d, dispatch_data_t _x, int _e){ h_handler(_d, _x, _e); })
+#define H_HANDLER_IS(h) 1
+#else
+#define H_HANDLER h_handler
+#define H_HANDLER_IS(h) ((h) == h_handler)
+#endif
 void dispatch_resume(dispatch_object_t o) { __verif_event(EV_RELEASE, 0, o._do, 1, 0); }
 void dispatch_suspend(dispatch_object_t o) { __verif_event(EV_RETAIN, 0, o._do, 1, 0); }
 /* dispatch_async(q, ^{B}) is lowered by rule R-async onto these two */
 dispatch_queue_t H_async_q; unsigned H_asyncs;
-static inline void __verif_block_begin_dispatch_async(dispatch_queue_t q) { H_async_q = q; H_asyncs++; }
-static inline void __verif_block_end(void) { }
+void __verif_block_begin_dispatch_async(dispatch_queue_t q) { H_async_q = q; H_asyncs++; }
+void __verif_block_end(void) { }
+/* ---- system interface as seen from _dispatch_operation_perform */
+#ifdef VERIF_NATIVE
+#define H_ALLOC(n) malloc((n) ? (n) : 1)
+#define H_WINDOW_OK(p, n) 1
+#else
+#define H_ALLOC(n) __CPROVER_allocate((n), 0)
+#define H_WINDOW_OK(p, n) ((n) == 0 || __CPROVER_rw_ok((p), (n)))
+#endif
+int H_errno; int *__errno_location(void) { return &H_errno; }
+unsigned H_syscalls; int H_sys_fd; const void *H_sys_buf; size_t H_sys_len; off_t H_sys_off; int H_sys_kind; _Bool H_sys_window_bad; ssize_t H_sys_ret;
+size_t H_alloc_size; void *H_alloc_ptr; unsigned H_allocs_io;
+#define PERF_GHOST H_errno, H_syscalls, H_sys_fd, H_sys_buf, H_sys_len, H_sys_off, H_sys_kind, H_sys_window_bad, H_sys_ret, H_alloc_size, H_alloc_ptr, H_allocs_io
+/* one transfer system call: the kernel moves between 0 and len bytes, or fails with some errno */
+static inline ssize_t h_syscall(int kind, int fd, const void *buf, size_t len, off_t off)
+{
+	H_syscalls++; H_sys_kind = kind; H_sys_fd = fd; H_sys_buf = buf; H_sys_len = len; H_sys_off = off;
+	if (!H_WINDOW_OK(buf, len)) H_sys_window_bad = 1;
+	ssize_t r = ND(ssize_t); __CPROVER_assume(r >= -1 && (r < 0 || (size_t)r <= len));
+	if (r < 0) { H_errno = ND(int); __CPROVER_assume(H_errno > 0); }
+	H_sys_ret = r; return r;
+}
+ssize_t read(int fd, void *buf, size_t len) { return h_syscall(1, fd, buf, len, 0); }
+ssize_t pread(int fd, void *buf, size_t len, off_t off) { return h_syscall(2, fd, buf, len, off); }
+ssize_t write(int fd, const void *buf, size_t len) { return h_syscall(3, fd, buf, len, 0); }
+ssize_t pwrite(int fd, const void *buf, size_t len, off_t off) { return h_syscall(4, fd, buf, len, off); }
+int posix_memalign(void **memptr, size_t alignment, size_t size)
+{ (void)alignment; H_allocs_io++; H_alloc_size = size; if (ND_BOOL()) return ENOMEM; H_alloc_ptr = H_ALLOC(size); *memptr = H_alloc_ptr; return 0; }
